@@ -247,7 +247,9 @@ def system_epot(ctx, rng, quats):
                 warnings.simplefilter("ignore")
                 system = System()
                 r = rod(interp, mixed)
-                load = Force_line_distributed(np.array([0.0, 0.0, -2.0]), r)
+                # a load that varies along the rod (and a constant one for the first family)
+                load = Force_line_distributed(np.array([0.0, 0.0, -2.0]) if interp == "Quaternion" and not mixed
+                                              else (lambda t, xi: np.array([xi, 0.5 + t, -2.0 * xi * xi])), r)
                 tip = Force(np.array([1.0, 0, 0]), r, xi=1.0)
                 b = RigidBody(1.0, np.eye(3), q0=np.array([0.0, 3, 0, 1, 0, 0, 0]), name=f"b{rng.randrange(10**9)}")
                 pm = PointMass(1.0, q0=np.array([4.0, 0, 0]), name=f"p{rng.randrange(10**9)}")
